@@ -359,6 +359,7 @@ func execOnce(out *scenOut, bits int, hist []int, nexec int, fail, withCallback 
 			problem(fmt.Sprintf("after the exec: terminal{%s}, expected alt=%t paste=%t focus=%t", vtModes(t), want.alt, want.paste, want.focus))
 		}
 		// the next view is fully repainted
+		waitFor(3*time.Second, func() bool { return strings.Contains(buf.String()[before:], "second line") }) // (a frame tick may be late on a busy machine)
 		after := buf.String()[before:]
 		if !strings.Contains(after, "second line") {
 			problem("the view was not fully repainted after the exec")
